@@ -128,6 +128,9 @@ cfg_if::cfg_if! {
 
 mod chacha;
 pub use self::chacha::{ChaCha, ChaCha8, ChaCha12, ChaCha20};
+#[cfg(casualx_urandom_verif)]
+#[doc(hidden)]
+pub use self::chacha::verif_slp_block;
 
 mod system;
 pub use self::system::System;
